@@ -18,6 +18,7 @@ def main(pid, tier, repo=None):
         unsafe_rules.rule_cast_align(ctx)
         unsafe_rules.rule_type_census(ctx, "grid")
         kernel_sub.run(ctx, [k for k, v in unsafe_rules.CENSUS.items() if v[0] == "h"])
+        kernel_sub.run_var_sub(ctx)
     if tier == "thorough":
         from .. import witness
         witness.rule(ctx, ["MutableViewIsNotClone", "MutableViewIsNotCopy", "RawViewConstructionIsUnsafe", "SplitHalvesBorrowParent"])
